@@ -16,6 +16,7 @@
 package common
 
 import (
+	"errors"
 	"fmt"
 
 	"github.com/blinklabs-io/gouroboros/cbor"
@@ -44,6 +45,11 @@ func NewPointOrigin() Point {
 // UnmarshalCBOR is a helper function for decoding a Point object from CBOR. The object content can vary,
 // so we need to do some special handling when decoding. It is not intended to be called directly.
 func (p *Point) UnmarshalCBOR(data []byte) error {
+	// A point is a list; the generic decoder would turn null / undefined into
+	// an empty slice, i.e. into the origin point
+	if len(data) == 0 || data[0]&cbor.CborTypeMask != cbor.CborTypeArray {
+		return errors.New("Point must be a list")
+	}
 	var tmp []any
 	if _, err := cbor.Decode(data, &tmp); err != nil {
 		return err
